@@ -268,6 +268,13 @@ func (s *State) iteValue(c *Term, a, b Value) Value {
 	switch x := a.(type) {
 	case *Term:
 		return Ite(c, x, asTerm(b))
+	case *ListV:
+		if y, ok := b.(*ListV); ok {
+			return s.mergeLists(c, x, y)
+		}
+		if yi, ok := s.itemsOf(b); ok {
+			return s.mergeLists(c, x, &ListV{Items: yi, Elem: x.Elem})
+		}
 	case *IfaceV:
 		y := b.(*IfaceV)
 		iv := &IfaceV{Type: Ite(c, x.Type, y.Type), Handle: Ite(c, x.Handle, y.Handle), Static: x.Static, alts: map[int]Value{}}
@@ -338,6 +345,12 @@ func (fr *Frame) builtin(in ssa.Instruction, b *ssa.Builtin, c *ssa.CallCommon, 
 	switch b.Name() {
 	case "len":
 		switch x := args[0].(type) {
+		case *ListV:
+			var n *Term = Const(64, 0)
+			for _, it := range x.Items {
+				n = Add(n, Ite(it.Guard, Const(64, 1), Const(64, 0)))
+			}
+			return []Value{n}
 		case *SliceV:
 			return []Value{x.Len}
 		case *StringV:
@@ -435,6 +448,23 @@ func (fr *Frame) builtin(in ssa.Instruction, b *ssa.Builtin, c *ssa.CallCommon, 
 // fresh array is allocated and the old contents copied.
 func (fr *Frame) appendOp(args []Value, where string) Value {
 	s := fr.st
+	if lv, ok := args[0].(*ListV); ok {
+		si, ok2 := s.itemsOf(args[1])
+		if !ok2 {
+			unsup("append of %T to a list", args[1])
+		}
+		return &ListV{Items: append(append([]ListItem{}, lv.Items...), si...), Elem: lv.Elem}
+	}
+	if d0, ok := args[0].(*SliceV); ok {
+		if _, scalar := sortOf(d0.Elem); !scalar {
+			di, ok1 := s.itemsOf(d0)
+			si, ok2 := s.itemsOf(args[1])
+			if ok1 && ok2 {
+				return &ListV{Items: append(append([]ListItem{}, di...), si...), Elem: d0.Elem}
+			}
+			unsup("append to a slice of non-scalars that is not a list")
+		}
+	}
 	dst := args[0].(*SliceV)
 	var srcArr Arr
 	var srcOff, n *Term
